@@ -1102,6 +1102,13 @@ impl<P: Xof<SEED_SIZE>, const SEED_SIZE: usize> Aggregator<SEED_SIZE, 16>
             }
         };
 
+        if input_share.corr_inner.len() + 1 != self.bits {
+            return Err(VdafError::Uncategorized(format!(
+                "unexpected number of inner correlated randomness shares ({})",
+                input_share.corr_inner.len()
+            )));
+        }
+
         if usize::from(agg_param.level) < self.bits - 1 {
             let mut corr_prng = self.init_prng::<_, _, Field64>(
                 input_share.corr_seed.as_ref(),
